@@ -143,6 +143,15 @@ def _crossing_combos(cr, design, factors, excludes, rcc):
     simple = [f for f in cr if not factors[f].complex]
     cplx = [f for f in cr if factors[f].complex]
     simple_combos = sorted({tuple(a[f] for f in simple) for a in feas})
+    # "Exclude constraints can exclude levels of a crossed factor ... combinations involving the factor are removed" and
+    # "a derived-factor definition implicitly excludes certain combinations": neither sentence covers an Exclude on a
+    # BASIC factor OUTSIDE the crossing that leaves a crossed derived level without any source; the documentation does
+    # not say whether the crossing shrinks then
+    outside_basic = [(f, l) for f, l in excludes if not factors[f].derived and f not in cr]
+    if outside_basic:
+        feas2 = _single_trial_feasible(design, factors, [e for e in excludes if e not in outside_basic])
+        if sorted({tuple(a[f] for f in simple) for a in feas2}) != simple_combos:
+            raise Outside('an Exclude on a basic factor outside the crossing makes a crossing combination unreachable')
     excl = {(f, l) for f, l in excludes}
     cplx_levels = [[li for li, ln in enumerate(factors[f].level_names) if (f, ln) not in excl] for f in cplx]
     full = 1
@@ -529,9 +538,16 @@ def formula(sem, cells):
             continue
         if kind == 'Pin':
             idx, f, l = c[1], c[2], c[3]
-            for (lo, hi, sust) in windows(sem, scope):
+            ws = list(windows(sem, scope))
+            full = max(hi - lo for lo, hi, _ in ws)
+            for (lo, hi, sust) in ws:
                 sf = sustain_of(sem, f) if scope is None else sust
                 t = lo + idx * sf if idx >= 0 else hi + idx * sf
+                if hi - lo < full and not (lo <= t < hi) and (0 <= idx * sf < full or 0 < -idx * sf <= full):
+                    # "If index is not in range for trials in an experiment, then the experiment will have no
+                    # satisfying trial sequences": whether a partial last repetition counts as such an experiment is
+                    # not documented
+                    raise Outside('Pin index beyond a partial last repetition window')
                 if not (lo <= t < hi) or not cells.applies(f, t):
                     out.append((f'Pin:{idx}:{f}:{l}', z3.BoolVal(False)))
                 else:
